@@ -61,6 +61,9 @@ Behav(p) == { [n |-> "ok",        s |-> <<Resp("ok", 200, IPOf(p) \o "\n")>>,   
               [n |-> "429",       s |-> <<Resp("status", 429, IPOf(p))>>,                                   c |-> "final"],
               [n |-> "invalid",   s |-> <<Resp("body", 200, "not-an-address")>>,                            c |-> "final"],
               [n |-> "empty",     s |-> <<Resp("body", 200, "")>>,                                          c |-> "final"],
+              [n |-> "zoned",     s |-> <<Resp("body", 200, "fe80::1%eth0")>>,                              c |-> "final"],
+              [n |-> "addrport",  s |-> <<Resp("body", 200, IPOf(p) \o ":80")>>,                            c |-> "final"],
+              [n |-> "cidr",      s |-> <<Resp("body", 200, IPOf(p) \o "/32")>>,                            c |-> "final"],
               [n |-> "err_ok",    s |-> <<Resp("neterr", 0, ""), Resp("ok", 200, "  " \o IPOf(p) \o " \n")>>, c |-> "retrywin"],
               [n |-> "err",       s |-> <<Resp("neterr", 0, "")>>,                                          c |-> "retry"],
               [n |-> "hang",      s |-> <<Resp("hang", 0, "")>>,                                            c |-> "stall"],
